@@ -218,3 +218,10 @@ Print Assumptions C04_source_push_shape.
 Theorem C04_source_lock_kinds : gen_lock_kinds = [] \/ gen_lock_kinds = expected_lock_kinds.
 Proof. exact source_lock_kinds. Qed.
 Print Assumptions C04_source_lock_kinds.
+
+(** MAX_LEVEL is published inside the writer section (`set_max` only in `rebuild_interest`; every guard on the dispatcher list lives to
+    the end of its function), and `register`'s guard spans compute-and-push — read off callsite.rs *)
+Theorem C04_source_set_max_under_lock :
+  (gen_set_max_fns = [] /\ gen_guard_depth = []) \/ (gen_set_max_fns = expected_set_max_fns /\ gen_guard_depth = expected_guard_depth).
+Proof. exact source_set_max_under_lock. Qed.
+Print Assumptions C04_source_set_max_under_lock.
